@@ -183,14 +183,19 @@ namespace occa {
         modeDevice->maxBytesAllocated, modeDevice->bytesAllocated
       );
 
-      /*Loop through the reservation list*/
+      /*
+      Loop through the reservation list. Blocks are tracked in whole multiples
+      of the alignment, exactly as `reserved` counts them, so that the packed
+      blocks never need more than `reserved` bytes
+      */
       auto it = reservations.begin();
       modeMemory_t* m = *it;
-      dim_t lo = m->offset;    /*Start point of current block*/
-      dim_t hi = lo + m->size; /*End point of current block*/
+      dim_t lo = (m->offset / alignment) * alignment; /*Start point of current block*/
+      dim_t hi = ((m->offset + m->size + alignment - 1)
+                  / alignment) * alignment;           /*End point of current block*/
       dim_t offset = 0;
       udim_t newReserved = 0;
-      setPtr(m, newBuffer, offset);
+      setPtr(m, newBuffer, m->offset - lo);
       do {
 
         it++;
@@ -202,8 +207,9 @@ namespace occa {
         } else {
           /*Look at next reservation*/
           m = *it;
-          const dim_t mlo = m->offset;
-          const dim_t mhi = m->offset + m->size;
+          const dim_t mlo = (m->offset / alignment) * alignment;
+          const dim_t mhi = ((m->offset + m->size + alignment - 1)
+                            / alignment) * alignment;
           if (mlo > hi) {
             /*
             If the start point of the next reservation is in a new block
